@@ -243,7 +243,7 @@ def main(argv=None):
         os.makedirs(os.path.dirname(ledger_path), exist_ok=True)
         json.dump({'proved': proved_now}, open(ledger_path, 'w'), indent=1)
     missing = [k for k in ledger.get('proved', []) if k not in by_clause]
-    if missing and status == 0:
+    if missing and status == 0 and not a.update_ledger:
         status = 3
         for k in missing[:10]:
             lines.append('STRUCTURE: %s obligation %s of the reference ledger was not generated' % (prop, k))
